@@ -125,6 +125,7 @@ Record SpecShape : Prop := {
   sh_child_kind : forall i c, valid doc i -> In c (child_nodes doc i) ->
                   kind doc c <> KAttribute /\ kind doc c <> KDocument;
   sh_refs : forall i, valid doc i -> kind doc i = KEntityReference -> n_data (getd doc i) = DataStr [];
+  sh_attrs : forall i, valid doc i -> kind doc i <> KElement -> attributes doc i = [];
   sh_leaves : forall i, valid doc i -> kind doc i <> KDocument -> kind doc i <> KElement ->
               kind doc i <> KAttribute -> child_nodes doc i = [] }.
 
@@ -309,6 +310,7 @@ Definition row_shape_b (doc : xdoc) (i : node) : bool :=
           (child_nodes doc i)
   && (negb (nkind_eqb (kind doc i) KEntityReference) ||
       match n_data (getd doc i) with DataStr [] => true | _ => false end)
+  && (nkind_eqb (kind doc i) KElement || match attributes doc i with [] => true | _ => false end)
   && (nkind_eqb (kind doc i) KDocument || nkind_eqb (kind doc i) KElement || nkind_eqb (kind doc i) KAttribute
       || match child_nodes doc i with [] => true | _ => false end).
 
@@ -329,13 +331,19 @@ Proof.
   constructor.
   - intros i c Vi Hc. specialize (Hrow i Vi). unfold row_shape_b in Hrow.
     apply andb_prop in Hrow. destruct Hrow as [Hrow _]. apply andb_prop in Hrow. destruct Hrow as [Hrow _].
+    apply andb_prop in Hrow. destruct Hrow as [Hrow _].
     rewrite forallb_forall in Hrow. specialize (Hrow c Hc).
     apply andb_prop in Hrow. destruct Hrow as [H2 H3].
     split; apply nkind_eqb_false; apply negb_true_iff; assumption.
   - intros i Vi Hk. specialize (Hrow i Vi). unfold row_shape_b in Hrow.
-    apply andb_prop in Hrow. destruct Hrow as [Hrow _]. apply andb_prop in Hrow. destruct Hrow as [_ Hrow].
+    apply andb_prop in Hrow. destruct Hrow as [Hrow _]. apply andb_prop in Hrow. destruct Hrow as [Hrow _].
+    apply andb_prop in Hrow. destruct Hrow as [_ Hrow].
     rewrite Hk in Hrow. cbn [nkind_eqb negb orb] in Hrow.
     destruct (n_data (getd doc i)) as [| |[|? ?]]; try discriminate. reflexivity.
+  - intros i Vi Hk. specialize (Hrow i Vi). unfold row_shape_b in Hrow.
+    apply andb_prop in Hrow. destruct Hrow as [Hrow _]. apply andb_prop in Hrow. destruct Hrow as [_ Hrow].
+    destruct (nkind_eqb (kind doc i) KElement) eqn:E; [apply nkind_eqb_true in E; contradiction|].
+    cbn [orb] in Hrow. destruct (attributes doc i); [reflexivity|discriminate].
   - intros i Vi H1 H2 H3. specialize (Hrow i Vi). unfold row_shape_b in Hrow.
     apply andb_prop in Hrow. destruct Hrow as [_ Hrow].
     destruct (nkind_eqb (kind doc i) KDocument) eqn:E1; [apply nkind_eqb_true in E1; contradiction|].
